@@ -121,7 +121,10 @@ type verifBuf struct{ b []byte }
 
 func (w *verifBuf) Write(p []byte) (int, error) { w.b = append(w.b, p...); return len(p), nil }
 
-func verifHandshake(k verifK) []byte {
+func verifHandshake(k verifK) []byte { return verifHandshakeN(k, 0) }
+
+// verifHandshakeN: the n-th distinct handshake of key k (distinct fixed salts)
+func verifHandshakeN(k verifK, n int) []byte {
 	key, err := shadowsocks.NewEncryptionKey(k.cipher, k.secret)
 	if err != nil {
 		panic(err)
@@ -130,16 +133,16 @@ func verifHandshake(k verifK) []byte {
 	w := shadowsocks.NewWriter(buf, key)
 	// a fixed client salt: a random one carries the server's 32-bit mark with probability 2^-32,
 	// which the symbolic run would explore as a reflected-replay refusal
-	w.SetSaltGenerator(verifFixedSalt{})
+	w.SetSaltGenerator(verifFixedSalt{n})
 	w.Write([]byte{1, 93, 184, 216, 34, 0, 80, 'x'})
 	return buf.b
 }
 
-type verifFixedSalt struct{}
+type verifFixedSalt struct{ n int }
 
-func (verifFixedSalt) GetSalt(salt []byte) error {
+func (f verifFixedSalt) GetSalt(salt []byte) error {
 	for i := range salt {
-		salt[i] = byte(7*i + 3)
+		salt[i] = byte(7*i + 3 + 31*f.n)
 	}
 	return nil
 }
@@ -194,14 +197,16 @@ func verifProbeUDP(sm *verifSvcMetrics, address string, k verifK) (bool, bool, s
 	return true, ev.auth, ev.id
 }
 
-func verifNewServer(sm *verifSvcMetrics) *OutlineServer {
+func verifNewServer(sm *verifSvcMetrics) *OutlineServer { return verifNewServerHistory(sm, 0) }
+
+func verifNewServerHistory(sm *verifSvcMetrics, history int) *OutlineServer {
 	service.VerifResetPackets()
 	return &OutlineServer{
 		lnManager:      service.NewListenerManager(),
 		natTimeout:     defaultNatTimeout,
 		serverMetrics:  newPrometheusServerMetrics(),
 		serviceMetrics: sm,
-		replayCache:    service.NewReplayCache(0),
+		replayCache:    service.NewReplayCache(history),
 	}
 }
 
@@ -425,10 +430,14 @@ func VH_C10_reload() {
 	verifAssert("C10.failed-generation-not-running", verifBlockedIn("runConfig") == 1)
 	verifReach("C10.failed-reload-checked", true)
 
-	// a later good reload replaces g1 completely
-	g3 := Config{Services: []ServiceConfig{verifSvc([]verifLn{verifL2T, verifL1U}, verifKC("g3", verifKeys[2]))}}
+	// a later good reload replaces g1 completely (it also uses addresses the failed one tried)
+	g3 := Config{Services: []ServiceConfig{verifSvc([]verifLn{verifL2T, verifL1U, verifL3T, verifL2U}, verifKC("g3", verifKeys[2]))}}
 	verifAssert("C10.good-reload-ok", verifLoadCfg(s, &verifCfgStep{cfg: g3}) == nil)
 	verifCheckState("C10.after-good-reload", sm, &g3, all, verifKeys)
+	// and another one drops those addresses again
+	g4 := Config{Services: []ServiceConfig{verifSvc([]verifLn{verifL1T}, verifKC("g4", verifKeys[0]))}}
+	verifAssert("C10.second-good-reload-ok", verifLoadCfg(s, &verifCfgStep{cfg: g4}) == nil)
+	verifCheckState("C10.after-second-good-reload", sm, &g4, all, verifKeys)
 	verifAssert("C10.stop-ok", s.Stop() == nil)
 	verifQuiesce()
 	verifCheckState("C10.after-stop", sm, &Config{}, all, verifKeys[:1])
@@ -548,4 +557,96 @@ func VH_C11_overlap() {
 	verifAssert("C11.overlap.stop-ok", s.Stop() == nil)
 	verifQuiesce()
 	verifReach("C11.overlap.done", true)
+}
+
+
+// sends handshake number n of key k to 127.0.0.1:port; returns (served, refused-as-probe)
+func verifPresent(sm *verifSvcMetrics, port int, k verifK, n int) (bool, bool) {
+	id := verifDialTCP(&net.TCPAddr{IP: net.IPv4(127, 0, 0, 1), Port: port})
+	if id < 0 {
+		return false, false
+	}
+	verifTCPSend(id, verifHandshakeN(k, n))
+	verifTCPCloseWrite(id)
+	verifQuiesce()
+	ev := sm.last("tcp", strconv.Itoa(port))
+	if ev == nil {
+		return false, false
+	}
+	sm.mu.Lock()
+	defer sm.mu.Unlock()
+	ev.local = "consumed"
+	return ev.auth, ev.probe
+}
+
+// C07 (wiring): one replay history for the whole process — a handshake served on one service is
+// refused on another service sharing the key and after configuration reloads, also once the
+// history has rotated
+func VH_C07_process_wide() {
+	sm := &verifSvcMetrics{}
+	const history = 2
+	s := verifNewServerHistory(sm, history)
+	cfg := Config{Services: []ServiceConfig{
+		// the same access key (id, cipher, secret) offered by two services
+		verifSvc([]verifLn{verifL1T}, verifKC("shared", verifKeys[0])),
+		verifSvc([]verifLn{verifL2T}, verifKC("shared", verifKeys[0])),
+	}}
+	verifAssert("C07.wide.load-ok", verifLoadCfg(s, &verifCfgStep{cfg: cfg}) == nil)
+	n := 0
+	fillers := verifChoice("fillers", history+2) // 0..history+1 earlier handshakes (rotation or not)
+	for i := 0; i < fillers; i++ {
+		n++
+		served, _ := verifPresent(sm, 9201+i%2, verifKeys[0], n)
+		verifAssert("C07.wide.filler-served", served)
+	}
+	n++
+	served, _ := verifPresent(sm, 9201, verifKeys[0], n)
+	verifAssert("C07.wide.first-presentation-served", served)
+	served, probe := verifPresent(sm, 9202, verifKeys[0], n)
+	verifAssert("C07.wide.replay-on-other-service-refused", !served && probe)
+	n++
+	served, _ = verifPresent(sm, 9202, verifKeys[0], n)
+	verifAssert("C07.wide.second-handshake-served", served)
+	verifAssert("C07.wide.reload-ok", verifLoadCfg(s, &verifCfgStep{cfg: cfg}) == nil)
+	served, probe = verifPresent(sm, 9201, verifKeys[0], n)
+	verifAssert("C07.wide.replay-after-reload-refused", !served && probe)
+	verifAssert("C07.wide.stop-ok", s.Stop() == nil)
+	verifQuiesce()
+	verifReach("C07.wide.rotated", fillers >= history)
+}
+
+
+// C09: two services whose listener addresses are different spellings of one socket address.
+// Either the configuration is refused as a whole, or the services stay separate; in no case may
+// a key of one service authenticate on the other's listener.
+func VH_C09_same_socket_two_spellings() {
+	sm := &verifSvcMetrics{}
+	s := verifNewServer(sm)
+	a := verifSvc([]verifLn{verifL1T, verifL1U}, verifKC("a-1", verifKeys[0]))
+	b := ServiceConfig{Keys: []KeyConfig{verifKC("b-1", verifKeys[1])}}
+	spell := []string{"[::ffff:127.0.0.1]:9201", "[::ffff:7f00:1]:9201", "127.0.0.1:09201"}[verifChoice("spelling", 3)]
+	b.Listeners = []ListenerConfig{{Type: listenerTypeTCP, Address: spell}}
+	if verifFlag("udp-too") {
+		b.Listeners = append(b.Listeners, ListenerConfig{Type: listenerTypeUDP, Address: spell})
+	}
+	cfg := Config{Services: []ServiceConfig{a, b}}
+	err := verifLoadCfg(s, &verifCfgStep{cfg: cfg})
+	for rep := 0; rep < verifRepeat(6); rep++ { // natively which service accepts next is a matter of timing
+	for _, k := range verifKeys {
+		up, auth, id := verifProbeTCP(sm, 9201, k)
+		if err != nil {
+			verifAssert("C09.spellings.refused-config-not-serving", !up)
+			continue
+		}
+		if up && auth {
+			// on 127.0.0.1:9201 (service a's listener as written) only service a's key may work
+			verifAssert("C09.spellings.no-cross-service-authentication", id == "a-1" && k == verifKeys[0])
+		}
+	}
+	}
+	if err == nil {
+		verifAssert("C09.spellings.stop-ok", s.Stop() == nil)
+	}
+	verifQuiesce()
+	verifReach("C09.spellings.refused", err != nil)
 }
